@@ -223,6 +223,57 @@ MB_PROOF = [
         }'''),
 ]
 
+RETAIN_PROOF = '''proof {
+                        assert(exists|keep: Seq<bool>| keep.len() == %(v0)s.len() && (forall|i: int| 0 <= i < keep.len() ==> #[trigger] keep[i] == (%(v0)s[i].file_id != file_id)) && %(cur)s == filter_by(%(v0)s, keep));
+                        let keep = choose|keep: Seq<bool>| keep.len() == %(v0)s.len() && (forall|i: int| 0 <= i < keep.len() ==> #[trigger] keep[i] == (%(v0)s[i].file_id != file_id)) && %(cur)s == filter_by(%(v0)s, keep);
+                        lemma_filter_by_is_filter(%(v0)s, keep, %(pred)s(file_id));
+                    }'''
+TY_SCOPED_HINT = '''proof {
+                    let o = old(self).%(field)s@; let n = self.%(field)s@; let k = *%(key)s; let nm = name.text();
+                    if !n.contains_key(k) && o.contains_key(k) {
+                        assert(%(mid)s.contains_key(k) && %(mid)s[k]@.is_empty() && name_dropped(o[k]@, %(mid)s[k]@, nm));
+                        assert forall|s: String| #[trigger] o[k]@.contains_key(s) implies s@ == nm by {
+                            assert(!%(mid)s[k]@.dom().contains(s));
+                            assert(!%(mid)s[k]@.contains_key(s));
+                        }
+                    }
+                }'''
+TY_LOOPS = {
+    0: '''invariant keys_ok(), ids == type_id_list@, 0 <= it.index@ <= ids.len(),
+                    self.file_namespace == pre.file_namespace, self.file_using_namespace == pre.file_using_namespace, self.file_types == pre.file_types,
+                    self.types == pre.types, self.in_filed_type_owner == pre.in_filed_type_owner,
+                    ty_inv(full0, self.full_name_type_map@, sup0, self.supers@, gp0, self.generic_params@, ids, it.index@, file_id) /*@C10.type.decls-of-file.inv*/,
+                    names_inv(full0, ids, it.index@, file_id, g0, self.global_name_type_map@, i0, self.internal_name_type_map@, l0, self.local_name_type_map@) /*@C10.type.names-of-removed-decls.inv*/,''',
+    1: '''invariant keys_ok(), 0 <= it2.index@ <= __v0@.len(),
+                    forall|o: LuaTypeOwner| #[trigger] self.types@.contains_key(o) <==> ty0.contains_key(o) && !in_pref(__v0@, it2.index@, o) /*@C10.type.types-of-file-gone.inv*/,
+                    forall|o: LuaTypeOwner| #[trigger] self.types@.contains_key(o) ==> self.types@[o] == ty0[o],''',
+}
+TY_PROOF = [
+    (r'for id in type_id_list \{', 'before', '''let ghost full0 = self.full_name_type_map@; let ghost sup0 = self.supers@; let ghost gp0 = self.generic_params@;
+            let ghost ids = type_id_list@; let ghost pre = *self;
+            let ghost g0 = self.global_name_type_map@; let ghost i0 = self.internal_name_type_map@; let ghost l0 = self.local_name_type_map@;
+            proof { lemma_names_init(full0, ids, file_id, g0, i0, l0); }'''),
+    (r'let mut remove_type = false;', 'before', '''let ghost n1 = it.index@ + 1; let ghost gid = id;
+                let ghost full1 = self.full_name_type_map@; let ghost sup1 = self.supers@; let ghost gp1 = self.generic_params@;
+                let ghost g1 = self.global_name_type_map@; let ghost i1 = self.internal_name_type_map@; let ghost l1 = self.local_name_type_map@;
+                proof { assert(gid == ids[n1 - 1]); }'''),
+    (r'decl\.get_mut_locations\(\)\s*\.retain', 'before', 'let ghost v0 = decl.locations@;'),
+    (r'(?s)\.retain\(\|loc[^;]*\);', 'after', RETAIN_PROOF % {'v0': 'v0', 'cur': 'decl.locations@', 'pred': 'loc_not_file'}),
+    (r'if let Some\(supers\) = self\.supers\.get_mut', 'before',
+     'proof { assert(remove_type == (full1.contains_key(gid) && decl_gone(full1[gid], file_id))); } /*@C10.type.decl-removed-iff-no-location-left*/'),
+    (r'supers\.retain\(', 'before', 'let ghost w0 = supers@;'),
+    (r'supers\.retain\([^;]*\);', 'after', RETAIN_PROOF % {'v0': 'w0', 'cur': 'supers@', 'pred': 'sup_not_file'}),
+    (r'(?s)if remove_type \{[^}]*\}', 'after', '''proof {
+                    lemma_ty_step(full0, full1, self.full_name_type_map@, sup0, sup1, self.supers@, gp0, gp1, self.generic_params@, ids, n1, file_id); /*@C10.type.decls-of-file.step*/
+                    lemma_names_step(full0, full1, sup0, sup1, gp0, gp1, ids, n1, file_id, remove_type,
+                        g0, g1, self.global_name_type_map@, i0, i1, self.internal_name_type_map@, l0, l1, self.local_name_type_map@); /*@C10.type.names-of-removed-decls.step*/
+                }'''),
+    (r'let __v0 = vx_set_into_vec', 'before', 'let ghost ty0 = self.types@;'),
+    (r'for type_owner in __v0 \{', 'after', 'proof { lemma_in_pref_step(__v0@, it2.index@ + 1); }'),
+    (r'self\.types\.\w+\(&type_owner\);\s*\}', 'after', 'proof { lemma_in_pref_full(__v0@); }'),
+    (r'\}\s*$', 'before', 'proof { if type_wf(old(self)) { lemma_type_final(old(self), self, file_id); } }'),
+]
+
 UNIT = {
     'extra_rules': [
         ('c10-metatable-closure-contract', r'\|key, _\| ([^;]*?)\);',
@@ -253,14 +304,27 @@ UNIT = {
         ('c10-member-closure-contract', r'\|id\| ([^;]*?)\);',
          r'|id: &LuaMemberId| -> (b: bool) ensures b == (id.file_id != file_id) /*@C10.member.retain-predicate*/ { \1 });',
          'contract overlay on the closure handed to Vec::retain: parameter type, named result and `ensures` are added, body verbatim'),
+        ('hashset-into-iter-vec-t', r'for (\w+) in (type_owners) \{', r'let __v0 = vx_set_into_vec(\2); for \1 in __v0 {',
+         'as hashset-into-iter-vec-0, for the set-driven loop of LuaTypeIndex::remove'),
+        ('c10-type-loc-closure-contract', r'\|loc\| ([^;]*?)\);',
+         r'|loc: &LuaDeclLocation| -> (b: bool) ensures b == (loc.file_id != file_id) /*@C10.type.location-retain-predicate*/ { \1 });',
+         'contract overlay on the closure handed to Vec::retain: parameter type, named result and `ensures` are added, body verbatim'),
+        ('c10-type-super-closure-contract', r'\|s\| ([^;]*?)\);',
+         r'|s: &InFiled<LuaType>| -> (b: bool) ensures b == (s.file_id != file_id) /*@C10.type.super-retain-predicate*/ { \1 });',
+         'contract overlay on the closure handed to Vec::retain: parameter type, named result and `ensures` are added, body verbatim'),
+        ('str-key-remove-field', r'self\.(\w+)\.remove\(name\.as_str\(\)\)', r'vx_remove_str_key(&mut self.\1, name.as_str())',
+         'M.remove(S) with M: HashMap<String, V>, S: &str -> vx_remove_str_key(&mut M, S): the helper\'s body is that very call; it only '
+         'attaches the std contract of HashMap::remove through String: Borrow<str> (which vstd does not model)'),
+        ('str-key-remove-ref', r'type_names\.remove\(name\.as_str\(\)\)', r'vx_remove_str_key(type_names, name.as_str())',
+         'as str-key-remove-field, for a map reached through `&mut HashMap<String, V>` (the reference is passed on as it is)'),
         ('c10-operator-closure-contract', r'\|x\| ([^;]*?)\);',
          r'|x: &LuaOperatorId| -> (b: bool) ensures b == (*x != id) /*@C10.operator.retain-predicate*/ { \1 });',
          'contract overlay on the closure handed to Vec::retain: parameter type, named result and `ensures` are added, body verbatim'),
     ],
     'items': {
-        'FileId': {'src': {'file': SRC + 'vfs/file_id.rs', 'kind': 'struct', 'name': 'FileId'}, 'attrs': ID_DERIVE},
-        'InFiled': {'src': {'file': SRC + 'vfs/file_id.rs', 'kind': 'struct', 'name': 'InFiled'}, 'attrs': '#[derive(PartialEq, Eq, Hash)]'},
-        'LuaDeclId': {'src': {'file': DB + 'declaration/decl_id.rs', 'kind': 'struct', 'name': 'LuaDeclId'}, 'attrs': ID_DERIVE},
+        'FileId': {'src': {'file': SRC + 'vfs/file_id.rs', 'kind': 'struct', 'name': 'FileId', 'drop_attrs': False}, 'attrs': '#[derive(Structural)]'},
+        'InFiled': {'src': {'file': SRC + 'vfs/file_id.rs', 'kind': 'struct', 'name': 'InFiled', 'drop_attrs': False}},
+        'LuaDeclId': {'src': {'file': DB + 'declaration/decl_id.rs', 'kind': 'struct', 'name': 'LuaDeclId', 'drop_attrs': False}, 'attrs': '#[derive(Structural)]'},
         # 1 ---- metatable
         'LuaMetatableIndex': st('metatable/mod.rs', 'LuaMetatableIndex'),
         'LuaMetatableIndex::remove': rm(
@@ -288,9 +352,8 @@ UNIT = {
                 ==> (#[trigger] final(self).global_decl@[k]@[i]).file_id != file_id /*@C10.global.no-decl-of-removed-file*/,
             forall|k: GlobalId| #[trigger] final(self).global_decl@.contains_key(k) ==> final(self).global_decl@[k]@.len() > 0 /*@C10.global.no-empty-vector*/'''),
         # 3 ---- operator
-        'LuaOperatorId': {'src': {'file': DB + 'operators/lua_operator.rs', 'kind': 'struct', 'name': 'LuaOperatorId'}, 'attrs': ID_DERIVE},
-        'LuaOperatorMetaMethod': {'src': {'file': DB + 'operators/lua_operator_meta_method.rs', 'kind': 'enum', 'name': 'LuaOperatorMetaMethod'},
-                                  'attrs': '#[derive(Clone, Copy, PartialEq, Eq, Hash)]'},
+        'LuaOperatorId': {'src': {'file': DB + 'operators/lua_operator.rs', 'kind': 'struct', 'name': 'LuaOperatorId', 'drop_attrs': False}, 'attrs': '#[derive(Structural)]'},
+        'LuaOperatorMetaMethod': {'src': {'file': DB + 'operators/lua_operator_meta_method.rs', 'kind': 'enum', 'name': 'LuaOperatorMetaMethod', 'drop_attrs': False}},
         'LuaOperatorOwner': {'src': {'file': DB + 'operators/lua_operator.rs', 'kind': 'enum', 'name': 'LuaOperatorOwner'},
                              'attrs': '#[derive(PartialEq, Eq, Hash)]'},
         'LuaOperator': st('operators/lua_operator.rs', 'LuaOperator', keep=['owner', 'op', 'file_id', 'range']),
@@ -365,6 +428,59 @@ UNIT = {
             mem_after(old(self).members@, final(self).members@, mo_listed(old(self), file_id)) /*@C10.member.members-of-file-gone*/,
             mem_after(old(self).member_current_owner@, final(self).member_current_owner@, mo_listed(old(self), file_id)) /*@C10.member.current-owner-of-file-gone*/,
             om_after(old(self).owner_members@, final(self).owner_members@, ''' + MB_LISTED + ''', file_id) /*@C10.member.owner-items-of-file-gone*/'''),
+        # 6 ---- type (eight maps exactly; the three name maps only "lose entries"; remove_type_decl_name's own contract exactly)
+        'WorkspaceId': {'src': {'file': DB + 'module/workspace.rs', 'kind': 'struct', 'name': 'WorkspaceId', 'drop_attrs': False}, 'attrs': '#[derive(Structural)]'},
+        'LuaTypeIdentifier': {'src': {'file': DB + 'type/type_decl.rs', 'kind': 'enum', 'name': 'LuaTypeIdentifier'}, 'attrs': '#[derive(PartialEq, Eq, Hash)]'},
+        'LuaTypeOwner': {'src': {'file': DB + 'type/type_owner.rs', 'kind': 'enum', 'name': 'LuaTypeOwner'}, 'attrs': '#[derive(PartialEq, Eq, Hash)]'},
+        'LuaDeclLocation': st('type/type_decl.rs', 'LuaDeclLocation', keep=['file_id', 'range']),
+        'LuaTypeDecl': st('type/type_decl.rs', 'LuaTypeDecl', keep=['simple_name', 'locations', 'id']),
+        'LuaTypeDecl::get_mut_locations': {
+            'src': {'file': DB + 'type/type_decl.rs', 'kind': 'fn', 'impl': 'LuaTypeDecl', 'name': 'get_mut_locations'}, 'ret': 'r',
+            'ensures': '*r == old(self).locations, final(self).locations == *final(r), final(self).simple_name == old(self).simple_name, final(self).id == old(self).id'},
+        'LuaTypeIndex': st('type/mod.rs', 'LuaTypeIndex'),
+        'LuaTypeIndex::remove_type_decl_name': {
+            'src': {'file': DB + 'type/mod.rs', 'kind': 'fn', 'impl': 'LuaTypeIndex', 'name': 'remove_type_decl_name'},
+            'rules': [('str-key-remove-field', {'count': 1}), ('str-key-remove-ref', {'count': 2})],
+            'requires': 'keys_ok()',
+            'proof': [
+                (r'if should_remove_workspace \{', 'before', 'let ghost mid_ws = self.internal_name_type_map@;'),
+                (r'self\.internal_name_type_map\.\w+\(workspace_id\);\s*\}', 'after',
+                 TY_SCOPED_HINT % {'field': 'internal_name_type_map', 'key': 'workspace_id', 'mid': 'mid_ws'}),
+                (r'if should_remove_file \{', 'before', 'let ghost mid_f = self.local_name_type_map@;'),
+                (r'self\.local_name_type_map\.\w+\(file_id\);\s*\}', 'after',
+                 TY_SCOPED_HINT % {'field': 'local_name_type_map', 'key': 'file_id', 'mid': 'mid_f'}),
+            ],
+            'ensures': '''
+            type_other_fields_same(old(self), final(self)),
+            // the name of that declaration is dropped from the map of its scope (and the scope's map with it when it became empty)
+            rtdn_post(old(self).global_name_type_map@, final(self).global_name_type_map@, old(self).internal_name_type_map@, final(self).internal_name_type_map@,
+                      old(self).local_name_type_map@, final(self).local_name_type_map@, decl_id.ident()) /*@C10.type.name-of-removed-decl-dropped*/'''},
+        'LuaTypeIndex::remove': rm(
+            'type/mod.rs', 'LuaTypeIndex',
+            rules=['hashset-into-iter-vec-t', 'c10-type-loc-closure-contract', 'c10-type-super-closure-contract'],
+            attrs='#[verifier::loop_isolation(false)]', loops=TY_LOOPS, iter_names={0: 'it', 1: 'it2'}, proof=TY_PROOF,
+            ensures='''
+            // under the index invariant: no location, super, bound type, namespace entry or file-scoped name map of the removed file remains;
+            // a declaration is kept exactly while another file still declares it; everything else is unchanged
+            type_wf(old(self)) ==> type_removed(old(self), final(self), file_id) /*@C10.type.no-trace-of-removed-file*/,
+            // without assuming the invariant: the exact post-state of all eleven maps in terms of the ids / owners listed under the file
+            // per-file maps lose exactly the file's entry
+            dropped(old(self).file_namespace@, final(self).file_namespace@, file_id) && dropped(old(self).file_using_namespace@, final(self).file_using_namespace@, file_id)
+                && dropped(old(self).file_types@, final(self).file_types@, file_id)
+                && dropped(old(self).in_filed_type_owner@, final(self).in_filed_type_owner@, file_id) /*@C10.type.per-file-maps*/,
+            // for the ids listed under the file: a declaration keeps exactly its locations in other files (and goes, with its generic params,
+            // when none is left); a super list keeps exactly the supers contributed by other files (and goes when empty); every other
+            // declaration / super list / generic-params entry is unchanged
+            ty_inv(old(self).full_name_type_map@, final(self).full_name_type_map@, old(self).supers@, final(self).supers@,
+                   old(self).generic_params@, final(self).generic_params@, ty_listed(old(self), file_id), ty_listed(old(self), file_id).len() as int, file_id) /*@C10.type.decls-of-file*/,
+            // type caches of the owners listed under the file are gone, all others unchanged
+            (forall|o: LuaTypeOwner| #[trigger] final(self).types@.contains_key(o) <==> old(self).types@.contains_key(o) && !ty_owners(old(self), file_id).contains(o))
+                && (forall|o: LuaTypeOwner| #[trigger] final(self).types@.contains_key(o) ==> final(self).types@[o] == old(self).types@[o]) /*@C10.type.types-of-file-gone*/,
+            // name maps: exactly the names under which the removed declarations were registered are gone (global / per workspace / per file);
+            // a workspace's or file's name map is dropped iff a removed declaration lived there and no name is left; all else unchanged
+            names_inv(old(self).full_name_type_map@, ty_listed(old(self), file_id), ty_listed(old(self), file_id).len() as int, file_id,
+                      old(self).global_name_type_map@, final(self).global_name_type_map@, old(self).internal_name_type_map@, final(self).internal_name_type_map@,
+                      old(self).local_name_type_map@, final(self).local_name_type_map@) /*@C10.type.names-of-removed-decls*/'''),
         # ---- DbIndex::remove delegates to each of them
         'DbIndex': {'src': {'file': DB + 'mod.rs', 'kind': 'struct', 'name': 'DbIndex'}, 'rules': [('struct-fields', {'drop': ['vfs', 'emmyrc']})]},
         'DbIndex::remove': {'src': {'file': DB + 'mod.rs', 'kind': 'fn', 'impl': 'LuaIndex for DbIndex', 'name': 'remove'},
@@ -373,9 +489,10 @@ UNIT = {
             removed_global(&old(self).global_index, &final(self).global_index, file_id) /*@C10.DbIndex.global_index*/,
             removed_operator(&old(self).operator_index, &final(self).operator_index, file_id) /*@C10.DbIndex.operator_index*/,
             removed_reference(&old(self).references_index, &final(self).references_index, file_id) /*@C10.DbIndex.references_index*/,
-            removed_member(&old(self).members_index, &final(self).members_index, file_id) /*@C10.DbIndex.members_index*/'''},
+            removed_member(&old(self).members_index, &final(self).members_index, file_id) /*@C10.DbIndex.members_index*/,
+            removed_type(&old(self).types_index, &final(self).types_index, file_id) /*@C10.DbIndex.types_index*/'''},
     },
-    'allow': [r'external_body', r'uninterp spec fn im_(keys|pos|old|fin)', r'external_type_specification',
+    'allow': [r'external_body', r'uninterp spec fn im_(keys|pos|old|fin)', r'uninterp spec fn (ident|text)\(&self\)', r'external_type_specification',
               r'assume_specification<\'a, K, V, S, A: Allocator>\[ HashMap::<K, V, S, A>::iter_mut \]',
               r'assume_specification<\'a, K, V>\[ <IterMut<\'a, K, V> as Iterator>::next \]', r'assume_specification<\'a, K: Eq \+ Hash \+ Borrow<Q>, V, S: BuildHasher, A: Allocator, Q: Hash \+ Eq \+ \?Sized>\[ HashMap::<K, V, S, A>::get_mut \]', r'assume_specification<T, A: Allocator, F: FnMut\(&T\) -> bool>\[ Vec::<T, A>::retain \]',
               r'assume_specification<K, V, S, A: Allocator, F: FnMut\(&K, &mut V\) -> bool>\[ HashMap::<K, V, S, A>::retain \]'],
@@ -422,6 +539,25 @@ UNIT = {
          'expect': r'C10\.member\.empty-owners-dropped'},
         {'name': 'member-never-collects-empty-owners', 'item': 'LuaMemberIndex::remove', 'pattern': r'if member_items\.is_empty\(\) \{', 'repl': 'if member_items.is_empty() && false {',
          'expect': r'C10\.member\.owner-sweep\.step'},
+        {'name': 'type-location-retain-negated', 'item': 'LuaTypeIndex::remove', 'pattern': r'loc\.file_id != file_id', 'repl': 'loc.file_id == file_id',
+         'expect': r'C10\.type\.location-retain-predicate'},
+        {'name': 'type-keeps-decl-without-location', 'item': 'LuaTypeIndex::remove', 'pattern': r'self\.full_name_type_map\.remove\(&id\);', 'repl': 'self.full_name_type_map.get(&id);',
+         'expect': r'C10\.type\.decls-of-file\.step'},
+        {'name': 'type-keeps-supers-of-file', 'item': 'LuaTypeIndex::remove', 'pattern': r's\.file_id != file_id', 'repl': 'true',
+         'expect': r'C10\.type\.super-retain-predicate'},
+        {'name': 'type-keeps-empty-supers', 'item': 'LuaTypeIndex::remove', 'pattern': r'self\.supers\.remove\(&id\);', 'repl': 'self.supers.get(&id);',
+         'expect': r'C10\.type\.decls-of-file\.step'},
+        {'name': 'type-keeps-generic-params', 'item': 'LuaTypeIndex::remove', 'pattern': r'self\.generic_params\.remove\(&id\);', 'repl': 'self.generic_params.get(&id);',
+         'expect': r'C10\.type\.decls-of-file\.step'},
+        {'name': 'type-keeps-type-caches', 'item': 'LuaTypeIndex::remove', 'pattern': r'self\.types\.remove\(&type_owner\);', 'repl': 'self.types.get(&type_owner);',
+         'expect': r'C10\.type\.types-of-file-gone'},
+        {'name': 'type-keeps-namespace', 'item': 'LuaTypeIndex::remove', 'pattern': r'self\.file_namespace\.remove\(&file_id\);', 'repl': '',
+         'expect': r'C10\.type\.per-file-maps'},
+        {'name': 'type-name-keeps-empty-scope', 'item': 'LuaTypeIndex::remove_type_decl_name', 'pattern': r'self\.local_name_type_map\.remove\(file_id\);', 'repl': 'self.local_name_type_map.get(file_id);',
+         'expect': r'C10\.type\.name-of-removed-decl-dropped'},
+        {'name': 'type-keeps-names-of-removed-decls', 'item': 'LuaTypeIndex::remove', 'pattern': r'self\.remove_type_decl_name\(&id\);', 'repl': '',
+         'expect': r'C10\.type\.names-of-removed-decls\.step'},
+        {'name': 'dbindex-skips-types', 'item': 'DbIndex::remove', 'pattern': r'self\.types_index\.remove\(file_id\);', 'repl': '', 'expect': r'C10\.DbIndex\.types_index'},
         {'name': 'dbindex-skips-operators', 'item': 'DbIndex::remove', 'pattern': r'self\.operator_index\.remove\(file_id\);', 'repl': '', 'expect': r'C10\.DbIndex\.operator_index'},
         {'name': 'dbindex-skips-members', 'item': 'DbIndex::remove', 'pattern': r'self\.members_index\.remove\(file_id\);', 'repl': '', 'expect': r'C10\.DbIndex\.members_index'},
         {'name': 'dbindex-skips-references', 'item': 'DbIndex::remove', 'pattern': r'self\.references_index\.remove\(file_id\);', 'repl': '', 'expect': r'C10\.DbIndex\.references_index'},
@@ -430,6 +566,43 @@ UNIT = {
         {'name': 'operator-keeps-file-list', 'item': 'LuaOperatorIndex::remove', 'pattern': r'self\.in_filed_operator_map\.remove\(&file_id\)', 'repl': 'self.in_filed_operator_map.get(&file_id)',
          'expect': r'C10\.operator\.in_filed_operator_map'},
     ],
-    'min_obligations': 2,
-    'trusted': ['hashbrown -> std::collections'],
+    'min_obligations': 50,
+    'trusted': [
+        'hashbrown::{HashMap,HashSet} -> std::collections (same API subset and documented behaviour for remove/get_mut/retain/iter_mut/is_empty; order never relied on)',
+        'Vec::retain: std doc contract as assume_specification (same text as unit c36_exit)',
+        'HashMap::retain: std doc contract as assume_specification (every old pair handed to the closure once with &mut value; kept iff it returned true, '
+        'with the value as the closure left it; nothing added)',
+        'HashMap::get_mut: std doc contract as assume_specification (reference to the stored value; what is written through it is the value stored under that '
+        'key when the borrow ends; every other entry untouched; None and no change for an absent key)',
+        'HashMap::iter_mut + IterMut::next: std doc contract as assume_specification over a ghost model of the iterator (uninterp im_keys/im_pos/im_old/im_fin; '
+        'im_fin is a prophecy = the map when the borrow ends): every key yielded exactly once in unspecified order, each with a &mut to its stored value; keys unchanged',
+        'vx_set_into_vec (external_body): HashSet::into_iter yields every element exactly once, order unspecified (helper of unit c10_remove)',
+        'vx_remove_str_key (external_body, body = m.remove(k)): HashMap<String,V>::remove(&str) removes the entry whose key has that text (String: Borrow<str>); vstd has no model of str-borrowed String keys',
+        'derive(PartialEq) is field-wise equality (Verus `Structural` marker): the repository\'s own derive lists are kept verbatim on FileId, InFiled, LuaDeclId, LuaOperatorId, WorkspaceId, LuaOperatorMetaMethod (a hand-written PartialEq there would no longer compile with Structural); derive lists re-attached by hand (serde / Clone of opaque payloads in the original list) on LuaMemberId, LuaOperatorOwner, LuaMemberOwner, MemberOrOwner, LuaTypeIdentifier, LuaTypeOwner, LuaMemberIndexItem - none of these is compared by the code under proof, they are only hashed as keys',
+        'obeys_key_model for every key type (keys_ok(): derived Hash/Eq, String)',
+        'text-size TextSize/TextRange transcribed as plain structs; rowan/smol_str/internment payloads opaque: SmolStr::as_str -> uninterp text(), '
+        'LuaTypeDeclId::get_id -> uninterp ident() (ArcIntern deref), derived Clone of LuaMemberKey/SmolStr returns an equal value',
+        'struct projections: LuaOperator (func dropped), LuaDeclLocation (flag dropped), LuaTypeDecl (extra dropped), DbIndex (vfs, emmyrc dropped): fields never read by the code under proof',
+        'index invariants op_wf / member_wf / type_wf / metatable_cofiled / table_owners_cofiled are ASSUMED for the property-level clauses (hypotheses of implications, justified by the '
+        'writers add_operator / add_member+set_member_owner+add_member_to_owner / add_type_decl+add_super_type+bind_type+index_type_decl_name / analyze_setmetatable, not proved here); `remove` is proved to re-establish op_wf and member_wf',
+    ],
+    'not_covered': [
+        'LuaModuleIndex::remove: NOT under contract - the property-derived contract is violated by the real code (leaf ModuleNode never removed from module_nodes; early `return` at the root '
+        'skips the clean-up of module_name_to_file_ids): see /verif/replay/c10 (exit 1 on the real code). Dialect also lacks: while-let with break/return through get_mut, HashMap::retain on values by pattern `|_, id|`, iteration over &HashMap<String,_>, Vec::contains',
+        'LuaTypeIndex: `remove` is NOT shown to re-establish type_wf (op_wf and member_wf are); the property-level clause says nothing about the global / per-workspace '
+        'name maps beyond the exact wf-free clause C10.type.names-of-removed-decls (they are keyed by name / workspace, not by file)',
+        'JsonSchemaIndex::remove: opaque shim, no contract',
+        'the index invariants (op_wf, member_wf, type_wf, ...) are not proved for the writers (add_operator, add_member, set_member_owner, add_member_to_owner, add_type_decl, add_super_type, bind_type, analyze_setmetatable)',
+        'LuaOperatorOwner::Type(decl) / LuaMemberOwner owners that name a file-local type: no statement that such owners disappear with the file (only Table(InFiled) owners)',
+    ],
+    'samples': [
+        'LuaMetatableIndex::remove: metatables\' = metatables restricted to keys with file_id != f (pointwise, values unchanged)',
+        'LuaGlobalIndex::remove: global_decl\'[k] = global_decl[k].filter(decl.file_id != f) in order; k dropped iff that is empty',
+        'LuaOperatorIndex::remove: under op_wf: operators\' = operators of other files; type_operators_map\'[o][p] = old vector filtered (id.file_id != f), vector/inner map dropped iff empty; '
+        'in_filed_operator_map loses f; op_wf kept; no Table owner of f left',
+        'LuaReferenceIndex::remove: index_reference\'[k] = index_reference[k] minus f; k dropped iff that is empty; same for global_references; four per-file maps lose f',
+        'LuaMemberIndex::remove: under member_wf: members/member_current_owner = entries of other files; per owner each item keeps its ids of other files; dead items and emptied owners dropped; member_wf kept',
+        'LuaTypeIndex::remove: under type_wf: a declaration keeps exactly its locations in other files and disappears (with generic params and its registered name) iff none is left; supers likewise; bound types of the file\'s owners gone; namespace entries and the file-scoped name map of f gone',
+        'DbIndex::remove: each of the above holds for the corresponding field',
+    ],
 }
